@@ -1324,7 +1324,13 @@ def _run(ctx):
                 "order; two-step chains (filter dropping a non-trailing ID, then filter / remove_empty / head / request "
                 "naming a removed ID on the result); the `biom head` command on JSON/HDF5/TSV files; after every table-level "
                 "step the table's own index(id) (always), data(id) (chains, wide, every 8th case) and exists(removed id) "
-                "are observed. non-trivial = table with >= 2 cells / matrix with >= 1 vector; "
+                "are observed; hardening stream: read -> in-place change keeping the objects (transform, update_ids, metadata "
+                "mutation/deletion) -> filter judged on current content; families of live tables derived from one source "
+                "around an in-place filter (bystanders re-observed with their own lookups); error profiles "
+                "empty=raise/warn/call in force during the call; every spelling of the flags (int, numpy bool, "
+                "positional), head defaults/keywords, unknown axis names; look-alike ID texts and "
+                "core.tricky_unknown_ids; one predicate function object re-used across tables; receivers left in a "
+                "random internal layout by core.poke_layout (about a third of all cases). non-trivial = table with >= 2 cells / matrix with >= 1 vector; "
                 "distinct = distinct (receiver recipe, request, implementation)")
     ctx.trusted = ["scipy tocsr()/tocsc()/sort_indices()/transpose/toarray are external: the layout handed to the "
                    "model is read from scipy, sort_indices is modelled by its contract (sortIndices)",
@@ -1337,7 +1343,7 @@ def _run(ctx):
     if ctx.quick():
         pool = int(os.environ.get("C08_POOL", "4")) if wn == 1 else 0
         grids = grid_list(ctx, [(1, 1), (1, 2), (2, 1), (1, 3), (3, 1), (2, 2), (2, 3), (3, 2)]) + \
-            [(10000 + i, g) for i, g in grid_list(ctx, [(3, 3)], sample=max(1, 400 // wn))]
+            [(10000 + i, g) for i, g in grid_list(ctx, [(3, 3)], sample=max(1, 250 // wn))]
         grids = [(k, g) for k, g in grids if k >= 10000 or ctx.mine(k)]
         shards = Shards(ctx, batch, impls, grids, 2, pool)
         kernel_cases(ctx, batch, impls, 500 // wn, fixed=first)
@@ -1349,7 +1355,7 @@ def _run(ctx):
         chain_cases(ctx, batch, impls, ctx.worker)
         wide_cases(ctx, batch, impls, max(40, 160 // wn))
         hardening_cases(ctx, batch, impls, max(20, 120 // wn))
-        random_cases(ctx, batch, impls, 1500 // wn, 6)
+        random_cases(ctx, batch, impls, 1200 // wn, 6)
     else:
         # ./check shards the thorough tier over WORKERS processes: grid number k belongs to worker k mod n
         pool = 0
@@ -1364,8 +1370,8 @@ def _run(ctx):
             cli_head_cases(ctx, batch)
         chain_cases(ctx, batch, impls, ctx.worker)
         wide_cases(ctx, batch, impls, 1200 // wn)
-        hardening_cases(ctx, batch, impls, 2400 // wn)
-        random_cases(ctx, batch, impls, 16000 // wn, 8)
+        hardening_cases(ctx, batch, impls, 1200 // wn)
+        random_cases(ctx, batch, impls, 12000 // wn, 8)
     batch.flush()
     shards.collect()
     ctx.notes.append("exhaustive part of worker %d/%d: %d grids%s" % (
